@@ -59,13 +59,16 @@ AddDurTP(m, p, d) == AddYearsTP(m, AddMonthsTP(m, AddExactTP(m, p, d.len), d.mo)
 AddDurClause(m, p, d, q) ==
   LET e  == AddDurTP(m, p, d)
       e2 == AddYearsTP(m, AddMonthsTP(m, p, d.mo), d.y)
+      \* third reading (what the library does): months on the written date, normalise, then years
+      e3 == AddYearsTP(m, AddExactTP(m, AddMonthsTP(m, p, d.mo), Zero3), d.y)
       alt == p.hh = 24 /\ d.len = Zero3
   IN
   IF ~ValidTP(m, q) THEN "result-invalid"
   ELSE IF q.hh >= 24 /\ ~alt THEN "result-hour-24"
   ELSE IF q.rep # p.rep THEN "representation-changed"
   ELSE IF ~SameZone(p, q) THEN "offset-changed"
-  ELSE IF alt THEN (IF Inst(m, q) = Inst(m, e) \/ (ValidDate(m, e2) /\ Inst(m, q) = Inst(m, e2)) THEN "ok" ELSE "date")
+  ELSE IF alt THEN (IF Inst(m, q) = Inst(m, e) \/ (ValidDate(m, e2) /\ Inst(m, q) = Inst(m, e2))
+                       \/ (ValidDate(m, AddMonthsTP(m, p, d.mo)) /\ Inst(m, q) = Inst(m, e3)) THEN "ok" ELSE "date")
   ELSE IF Tol(p, d, q) = 0 /\ ~SameDate(e, q) THEN "date"
   ELSE IF Tol(p, d, q) = 0 /\ ~(e.sod = q.sod /\ e.us = q.us) THEN "time-of-day"
   ELSE IF Tol(p, d, q) = 1 /\ ~Near3(Inst(m, q), Inst(m, e), 1) THEN "instant"
